@@ -675,6 +675,12 @@ func opqOf(cls, id int) any {
 		v = struct{ fmt.Stringer }{}
 	case 29: // zero-valued struct whose String method is promoted from an embedded nil pointer
 		v = struct{ *Strg }{}
+	case 30: // a value of a declared string type without methods (a string by kind, not by type); id 2: the empty one
+		if id == 2 {
+			v = MyStr("")
+		} else {
+			v = MyStr("named")
+		}
 	default:
 		v = &Opq{Cls: cls, ID: id}
 	}
